@@ -5,6 +5,8 @@ import JunoModel.C01.ProofsLazy
 import JunoModel.C01.ModelStore
 import JunoModel.C01.ProofsLegacy
 import JunoModel.C01.ProofsLegacyDel
+import JunoModel.C01.ProofsAbs
+import JunoModel.C01.ProofsMisc
 /-!
 C01 — property theorems (statements only; helper lemmas are in `Proofs*.lean`).
 Every theorem in this module is an obligation listed in evidence/C01.json with its axioms.
@@ -119,68 +121,58 @@ example : TrieL.rootHash .pedersen (TrieL.run .pedersen
      .reopen, .put [false, true, true] (.felt 0), .hash, .reopen, .put [true, false, true] (.felt 0)])
     = .add (.h .pedersen (.felt 9) (.felt 4)) 3 := by decide
 
-/-- **Commit + reopen, hashing part (partial).** After `Commit()` and reopening, the in-memory tree is the
-canonical tree `a` with subtrees left unresolved as hash nodes (`Abstracts`); whatever part is resolved,
-and with any sound caches, `Hash()` returns the commitment of `a`'s map. NOT proved (correspondence
-only): that `Commit` writes exactly the nodes from which `resolveNode` rebuilds such a tree, and that
-`insert`/`delete` through unresolved hash nodes commute with resolution (`trie2_commit_reopen` in full). -/
-theorem trie2_commit_reopen_hash_partial (k : HashKind) (n : Nat) (a t : Node)
-    (hw : WFRoot a n) (hab : Abstracts k a t) (hc : CacheOK k t) :
-    (Trie2.hashRoot k t).1 = Spec.root k n (Trie2.get a) := by
-  rw [hashRoot_eq, (hashNode_spec k t hc).1, rawHash_abstracts hab, rawHash_eq_spec k hw]
-
-example : Abstracts .pedersen
-    (.edge [true] (.bin (.value (.felt 1)) (.value (.felt 2)) Flags.new) Flags.new)
-    (.edge [true] (.hash (.h .pedersen (.felt 1) (.felt 2))) ⟨none, false⟩) :=
-  .edge (.unresolved _)
-
-/-! Non-vacuity: concrete histories that exercise an edge split, a binary collapse into the sibling
-edge, a no-op zero write and a cached hash, evaluated by the kernel. -/
-
-example : ValidOps 3 [.put [true, false, true] (.felt 7), .hash, .put [true, false, false] (.felt 9),
-    .put [false, false, false] (.felt 0), .put [true, false, true] (.felt 0)] := by
-  intro op hop; simp at hop; rcases hop with h | h | h | h | h <;> subst h <;> simp
-
-example : (Trie2.hashRoot .pedersen (Trie2.run .pedersen
-    [.put [true, false, true] (.felt 7), .hash, .put [true, false, false] (.felt 9)])).1
-    = .add (.h .pedersen (.h .pedersen (.felt 9) (.felt 7)) (.felt 2)) 2 := by decide
-
-example : (Trie2.hashRoot .pedersen (Trie2.run .pedersen
-    [.put [true, false, true] (.felt 7), .hash, .put [true, false, false] (.felt 9),
-     .put [false, false, false] (.felt 0), .put [true, false, true] (.felt 0)])).1
-    = .add (.h .pedersen (.felt 9) (.felt 4)) 3 := by decide
-
-example : Spec.root .pedersen 3 (absRun
-    [.put [true, false, true] (.felt 7), .hash, .put [true, false, false] (.felt 9)])
-    = .add (.h .pedersen (.h .pedersen (.felt 9) (.felt 7)) (.felt 2)) 2 := by decide
-
 /-! ## State commitment
 
-`State.run purge ds St.empty` applies the state diffs `ds` (deploy, replace class, nonce, storage
-writes incl. zero writes, declared / migrated classes) the way `core/state.State.Update` does
-(per-contract storage tries, contract trie, class trie, all trie2). `purge = true` is core/state
-(and core/deprecatedstate with the proposed fix); `purge = false` is core/deprecatedstate of the
-unchanged tree. `State.protocolLeaf` is the Starknet OS rule for a contract leaf. -/
+`State.absState ds` is the ABSTRACT state after the accepted diffs `ds`: four plain maps (class hash and
+nonce per address, value per address and slot, leaf value per class hash) updated by last-write-wins,
+independent of every trie and of the model's records (`ModelState.lean`). `State.absCommitment` is the
+Starknet commitment of such a state: `stateCommitment(version, Spec.root_Pedersen(address ↦
+protocolLeaf(class, Spec.root_Pedersen(storage), nonce)), Spec.root_Poseidon(class hash ↦ leaf))`,
+`protocolLeaf` = 0 for the entirely empty contract state, else `H(H(H(class, storage root), nonce), 0)`.
 
-/-- **The state root is the protocol-defined commitment of the state the node holds**, after ANY
-sequence of accepted state updates and on both sides of the 0.14.0 switch (`pre014`):
-`stateCommitment(version, Spec.root_Pedersen(address ↦ protocol leaf(class, Spec.root(storage), nonce)),
-Spec.root_Poseidon(class hash ↦ Poseidon(LEAF_V0, compiled class hash)))`; every trie root in it
-is the pure function `Spec.root` of a key/value map. -/
+`State.run purge ds St.empty` applies `ds` the way `core/state.State.Update` does (state objects, per-contract
+storage tries, contract trie, class trie, all trie2; the purge of a system contract whose storage is empty).
+`purge = true` is core/state; `purge = false` is core/deprecatedstate of the unchanged tree.
+`State.ValidDiff` is the input space: 251-bit keys, non-zero class hashes, system contracts 0x1/0x2 receive
+storage writes only, distinct addresses in `deployed` and in `storage` (Go maps). -/
+
+/-- **The state root is the protocol-defined commitment of the resulting abstract state**, after ANY
+sequence of accepted state updates and on both sides of the 0.14.0 switch (`pre014`). The right-hand side
+does not mention the model's state: it is the commitment of the fold of the diffs over plain maps. -/
 theorem state_commitment_spec (pre014 : Bool) (ds : List State.Diff)
     (hd : ∀ d ∈ ds, State.ValidDiff d) (s : State.St)
     (h : State.run true ds State.St.empty = some s) :
-    State.commitment pre014 s =
-      State.stateCommitment pre014
-        (Spec.root .pedersen 251 (State.protocolLeafOfRecs s.recs))
-        (Spec.root .poseidon 251 (absRun (ds.flatMap State.classOpsOf))) := by
-  have hc : Inv .poseidon 251 State.St.empty.cltrie (fun _ => .felt 0) :=
-    ⟨Or.inl rfl, by simp [State.St.empty, CacheOK], by intro k _; simp [State.St.empty, Trie2.get]⟩
-  obtain ⟨w, i⟩ := State.run_swf ds hd _ _ _ State.swf_empty hc h
+    State.commitment pre014 s = State.absCommitment pre014 (State.absState ds) := by
+  have hc : Inv .poseidon 251 State.St.empty.cltrie State.AbsSt.empty.classes :=
+    ⟨Or.inl rfl, by simp [State.St.empty, CacheOK], by intro k _; simp [State.St.empty, State.AbsSt.empty, Trie2.get]⟩
+  obtain ⟨w, r, i⟩ := State.run_rel ds hd _ _ _ State.swf_empty State.rel_empty hc h
   have hr := State.run_recsOK ds hd _ _ State.swf_empty
     (by intro a r hh; simp [State.St.empty, State.alookup] at hh) h
-  rw [State.protocolLeaf_eq_of_ok hr]
-  exact State.commitment_of_swf w _ i pre014
+  rw [State.commitment_of_swf w _ i pre014]
+  simp only [State.absCommitment, State.absState]
+  rw [State.spec_root_congr .pedersen 251 _ _ (State.leafOfRecs_abs r hr)]
+
+/-- **Order, batching, splitting into blocks (state level).** Two accepted histories — whatever the order of
+their diffs, however the writes are split into blocks, with whatever overwrites and deletions in between —
+that end in the same abstract state (on the 251-bit key space) have the same state root. -/
+theorem state_root_function_of_abstract_state (pre014 : Bool) (ds ds' : List State.Diff)
+    (hd : ∀ d ∈ ds, State.ValidDiff d) (hd' : ∀ d ∈ ds', State.ValidDiff d) (s s' : State.St)
+    (h : State.run true ds State.St.empty = some s) (h' : State.run true ds' State.St.empty = some s')
+    (hsame : State.AbsEq (State.absState ds) (State.absState ds')) :
+    State.commitment pre014 s = State.commitment pre014 s' := by
+  rw [state_commitment_spec pre014 ds hd s h, state_commitment_spec pre014 ds' hd' s' h']
+  exact State.absCommitment_congr pre014 hsame
+
+/-- Instance: the order in which the entries of a diff are visited (Go map iteration order — addresses of
+deployed / replaced / nonce / storage entries) does not change the abstract state, hence not the root. -/
+theorem state_diff_item_order_irrelevant (a : State.AbsSt) (d d' : State.Diff)
+    (h1 : (d.declared ++ d.migrated) = (d'.declared ++ d'.migrated))
+    (h2 : d.deployed.Perm d'.deployed) (n2 : (d.deployed.map (·.1)).Nodup)
+    (h3 : d.replaced.Perm d'.replaced) (n3 : (d.replaced.map (·.1)).Nodup)
+    (h4 : d.nonces.Perm d'.nonces) (n4 : (d.nonces.map (·.1)).Nodup)
+    (h5 : d.storage.Perm d'.storage) (n5 : (d.storage.map (·.1)).Nodup) :
+    State.AbsEq (State.absApply a d) (State.absApply a d') :=
+  State.absApply_perm a d d' h1 h2 n2 h3 n3 h4 n4 h5 n5
 
 /-- The storage trie of every contract record is canonical and its root (the `storage_root` in the
 leaf above) is the commitment of its key/value map; same for the contract trie. -/
@@ -193,22 +185,6 @@ theorem state_tries_canonical (purge : Bool) (ds : List State.Diff)
     ⟨Or.inl rfl, by simp [State.St.empty, CacheOK], by intro k _; simp [State.St.empty, Trie2.get]⟩
   obtain ⟨w, _⟩ := State.run_swf ds hd _ _ _ State.swf_empty hc h
   exact ⟨w.recs, inv_hash w.ctrie⟩
-
-/-- Both sides of the protocol-version switch: before 0.14.0 an empty class trie makes the state
-root the bare contract-trie root ... -/
-theorem state_commitment_pre_0_14_0 (contractRoot : HTerm) (h : contractRoot ≠ .felt 0) :
-    State.stateCommitment true contractRoot (.felt 0) = contractRoot := by
-  simp [State.stateCommitment, h]
-
-/-- ... from 0.14.0 on the Poseidon hash is always applied (unless both tries are empty). -/
-theorem state_commitment_from_0_14_0 (contractRoot classRoot : HTerm)
-    (h : contractRoot ≠ .felt 0 ∨ classRoot ≠ .felt 0) :
-    State.stateCommitment false contractRoot classRoot =
-      .pos3 (.felt State.stateVersion0) contractRoot classRoot := by
-  simp only [State.stateCommitment]
-  cases h with
-  | inl h => simp [h]
-  | inr h => simp [h]
 
 /-!
 DEFECT (known finding `deprecatedstate-keeps-leaf-of-emptied-system-contract`).
@@ -230,116 +206,76 @@ theorem legacy_state_commitment_spec_partial (pre014 : Bool) (ds : List State.Di
   obtain ⟨w, i⟩ := State.run_swf ds hd _ _ _ State.swf_empty hc h
   exact State.commitment_of_swf w _ i pre014
 
-/-- contract address 0x1 and storage slot 7 as 251-bit paths -/
-def addr1 : Path := List.replicate 250 false ++ [true]
-def slot7 : Path := List.replicate 248 false ++ [true, true, true]
-def zeroWriteToSystemContract : State.Diff := ⟨[], [], [], [], [], [(addr1, [(slot7, .felt 0)])]⟩
-
-theorem addr1_length : addr1.length = 251 := by
-  rw [addr1, List.length_append, List.length_replicate]; rfl
-theorem slot7_length : slot7.length = 251 := by
-  rw [slot7, List.length_append, List.length_replicate]; rfl
-
 set_option maxRecDepth 8000 in
 theorem legacy_state_commitment_not_protocol :
     ∃ (ds : List State.Diff) (s : State.St), (∀ d ∈ ds, State.ValidDiff d) ∧
       State.run false ds State.St.empty = some s ∧
-      State.commitment true s ≠
-        State.stateCommitment true (Spec.root .pedersen 251 (State.protocolLeafOfRecs s.recs))
-          (Spec.root .poseidon 251 (absRun (ds.flatMap State.classOpsOf))) := by
-  refine ⟨[zeroWriteToSystemContract],
-    ⟨[(addr1, ⟨.felt 0, .felt 0, .nil⟩)],
-     .edge addr1 (.value (State.contractLeaf (.felt 0) (.felt 0) (.felt 0))) Flags.new, .nil⟩, ?_, by decide, ?_⟩
+      State.commitment true s ≠ State.absCommitment true (State.absState ds) := by
+  refine ⟨[State.zeroWriteToSystemContract],
+    ⟨[(State.addr1, ⟨.felt 0, .felt 0, .nil⟩)],
+     .edge State.addr1 (.value (State.contractLeaf (.felt 0) (.felt 0) (.felt 0))) Flags.new, .nil⟩, ?_, by decide, ?_⟩
   · intro d hd'
     simp at hd'; subst hd'
-    refine ⟨by simp [zeroWriteToSystemContract], by simp [zeroWriteToSystemContract],
-      by simp [zeroWriteToSystemContract], by simp [zeroWriteToSystemContract], ?_⟩
-    intro e he
-    simp [zeroWriteToSystemContract] at he; subst he
-    exact ⟨addr1_length, by intro kv hkv; simp at hkv; subst hkv; exact slot7_length⟩
-  · have hz : State.protocolLeafOfRecs [(addr1, (⟨.felt 0, .felt 0, .nil⟩ : State.Rec))] = fun _ => .felt 0 := by
-      funext a
-      simp only [State.protocolLeafOfRecs, State.alookup]
-      split
-      · rfl
-      · rename_i r hr
-        by_cases ha : addr1 = a
-        · simp [ha] at hr; subst hr
-          have : Trie2.get .nil = fun _ => HTerm.felt 0 := by funext p; simp [Trie2.get]
-          simp [State.protocolLeaf, this, spec_root_empty]
-        · simp [ha] at hr
-    rw [hz, spec_root_empty]
-    have hcl : absRun (List.flatMap State.classOpsOf [zeroWriteToSystemContract]) = fun _ => .felt 0 := by
-      simp [State.classOpsOf, zeroWriteToSystemContract, absRun]
-    rw [hcl, spec_root_empty]
+    exact State.zeroWrite_valid
+  · rw [State.absCommitment_zeroWrite]
     decide
 
 set_option maxRecDepth 8000 in
 /-- the same history on core/state (and the repaired legacy backend): root 0, as the protocol says -/
-example : (State.run true [zeroWriteToSystemContract] State.St.empty).map (State.commitment true)
+example : (State.run true [State.zeroWriteToSystemContract] State.St.empty).map (State.commitment true)
     = some (.felt 0) := by decide
 
 set_option maxRecDepth 8000 in
-/-- non-vacuity of `state_commitment_spec`: a deploy + declare + storage block is accepted -/
-example : (State.run true [⟨[(slot7, .felt 9)], [], [(slot7, .felt 5)], [], [(slot7, .felt 1)],
-    [(slot7, [(addr1, .felt 3)]), (addr1, [(slot7, .felt 4)])]⟩] State.St.empty).isSome = true := by decide
+/-- non-vacuity of `state_commitment_spec`: a block that declares a class, deploys contract 0x7 with it, sets its
+nonce and writes one of its slots and one slot of system contract 0x1 is accepted -/
+example : (State.run true [⟨[(State.slot7, .felt 9)], [], [(State.slot7, .felt 5)], [], [(State.slot7, .felt 1)],
+    [(State.slot7, [(State.addr1, .felt 3)]), (State.addr1, [(State.slot7, .felt 4)])]⟩] State.St.empty).isSome = true := by decide
 
-/-! ## Dropped updates
+/-! ## The old root of a block
 
-An update whose batch is never written (`stateBackend.Simulate`: `NewBatch` + `defer Close`; a `Store`
-/ `Finalise` that fails; a crash before `batch.Write`) must leave no trace: the root is a function of the
-ACCEPTED updates only. In the models the database is a value that only an applied node set changes;
-the harness checks the same on the real code (full key/value dump of the database before and after every
-dropped update, through `State.Update` on a closed batch, `Blockchain.Simulate` and a failing root check). -/
+`State.Update` verifies `update.OldRoot` first. The old root of block n is the root the node STORED for
+block n-1 (the feeder gateway's `old_root`; `Blockchain.Store` passes it on), which was computed under the
+version of block n-1. `State.runStored fixed` is a chain in which every block carries its version flag and
+is checked like that (`State.oldRootOK`).
 
-/-- State layer: interleaving any dropped updates changes nothing — the resulting state (records, tries,
-hence every later root) is the one of the accepted updates alone. -/
-theorem state_dropped_updates_identity (purge : Bool) (ops : List State.DOp) (s : State.St) :
-    State.runD purge ops s = State.run purge (State.accepted ops) s := by
-  induction ops generalizing s with
-  | nil => rfl
-  | cons op rest ih =>
-    cases op with
-    | accept d =>
-      simp only [State.runD, State.accepted, State.run]
-      cases State.update purge s d with
-      | none => rfl
-      | some s' => exact ih s'
-    | dropped d => simpa [State.runD, State.accepted] using ih s
+DEFECT (known findings `state-` / `deprecatedstate-rejects-stored-old-root-at-commitment-formula-switch`).
+The full-strength statement — every block of a chain with non-decreasing versions whose diff is accepted is
+also accepted with the stored root as old root:
+  `(∀ consecutive flags, pre = true ∨ pre' = false) → runStored false bs (St.empty, felt 0) ≠ none` whenever the
+  plain `run` accepts — is FALSE on the unchanged tree: the old root is verified under the NEW block's
+version, so the first ≥ 0.14.0 block after a < 0.14.0 block is rejected while the class trie is empty.
+Proved instead: the `_partial` form (same version regime, or class trie not empty, or contract trie empty),
+the negation witness, and the full statement for the proposed repair (`fixed = true`). -/
+theorem stored_old_root_accepted_partial (pre pre' : Bool) (s : State.St)
+    (h : pre = pre' ∨ (Trie2.hashRoot .poseidon s.cltrie).1 ≠ .felt 0 ∨
+      (Trie2.hashRoot .pedersen s.ctrie).1 = .felt 0) :
+    State.oldRootOK false pre' (State.commitment pre s) s = true :=
+  State.oldRootOK_of pre pre' s h
 
-theorem store_update_keeps_disk {t t' : Trie2S.T} {key : Path} {v : HTerm}
-    (h : Trie2S.update t key v = some t') :
-    t'.disk = t.disk ∧ t'.height = t.height ∧ t'.kind = t.kind ∧ t'.leafDeleteAbs = t.leafDeleteAbs := by
-  unfold Trie2S.update at h
-  simp only [Option.map_eq_some_iff] at h
-  obtain ⟨x, _, rfl⟩ := h
-  exact ⟨rfl, rfl, rfl, rfl⟩
+/-- within one version regime the old-root check never rejects: the checked chain is the plain run -/
+theorem stored_old_root_same_version (pre014 : Bool) (ds : List State.Diff) (s : State.St) :
+    State.runStored false (ds.map (fun d => (pre014, d))) (s, State.commitment pre014 s) =
+      (State.run true ds s).map (fun s' => (s', State.commitment pre014 s')) :=
+  State.runStored_const false pre014 ds s
 
-/-- Trie / node-database layer: whatever is inserted, deleted and hashed on a trie2 trie, and whatever
-node set its `Commit()` returns, if that node set is not applied (`applySet` is the only writer of the
-database) then reopening yields exactly the trie that reopening before those operations yields — an
-uncommitted node set never changes what later operations and commits read. -/
-theorem store_uncommitted_changes_identity (t : Trie2S.T) (kvs : List (Path × HTerm)) (t' : Trie2S.T)
-    (h : kvs.foldlM (fun t (kv : Path × HTerm) => Trie2S.update t kv.1 kv.2) t = some t') :
-    Trie2S.discardReopen (Trie2S.hash t').2 = Trie2S.discardReopen t := by
-  have key : t'.disk = t.disk ∧ t'.height = t.height ∧ t'.kind = t.kind ∧ t'.leafDeleteAbs = t.leafDeleteAbs := by
-    induction kvs generalizing t with
-    | nil => simp [List.foldlM] at h; subst h; exact ⟨rfl, rfl, rfl, rfl⟩
-    | cons kv rest ih =>
-      simp only [List.foldlM_cons, bind, Option.bind] at h
-      cases h1 : Trie2S.update t kv.1 kv.2 with
-      | none => simp [h1] at h
-      | some t1 =>
-        simp only [h1] at h
-        obtain ⟨a, b, c, d⟩ := ih t1 h
-        obtain ⟨a', b', c', d'⟩ := store_update_keeps_disk h1
-        exact ⟨a.trans a', b.trans b', c.trans c', d.trans d'⟩
-  obtain ⟨a, b, c, d⟩ := key
-  simp [Trie2S.discardReopen, Trie2S.hash, a, b, c, d]
+set_option maxRecDepth 8000 in
+/-- negation witness: block 0 (version < 0.14.0) deploys contract 0x7; block 1 (version ≥ 0.14.0) sets its
+nonce. Both diffs are valid and accepted by the plain run, the chain with stored old roots rejects block 1. -/
+theorem stored_old_root_rejected_at_formula_switch :
+    ∃ d0 d1 : State.Diff, State.ValidDiff d0 ∧ State.ValidDiff d1 ∧
+      (State.run true [d0, d1] State.St.empty).isSome = true ∧
+      State.runStored false [(true, d0), (false, d1)] (State.St.empty, .felt 0) = none :=
+  ⟨State.deploy7, State.nonce7, State.deploy7_valid, State.nonce7_valid, by decide, by decide⟩
 
-/-- non-vacuity: a dropped update that deploys and writes storage leaves the state as it was -/
-example : State.runD true [.dropped ⟨[], [], [(slot7, .felt 5)], [], [], [(slot7, [(addr1, .felt 3)])]⟩] State.St.empty
-    = some State.St.empty := rfl
+/-- the proposed repair accepts the stored root at every step of a chain whose version never goes back below
+0.14.0 (`pre = true ∨ pre' = false`) -/
+theorem stored_old_root_accepted_after_fix (pre pre' : Bool) (s : State.St) (h : pre = true ∨ pre' = false) :
+    State.oldRootOK true pre' (State.commitment pre s) s = true :=
+  State.oldRootOK_fixed pre pre' s h
+
+set_option maxRecDepth 8000 in
+example : (State.runStored true [(true, State.deploy7), (false, State.nonce7)] (State.St.empty, .felt 0)).isSome = true := by
+  decide
 
 /-! ## The legacy trie (`core/trie`)
 
